@@ -187,7 +187,7 @@ package immutable
 //@ include internal/verifspec/hamtnode.contracts HEAD=func·(*mapHashCollisionNode). OPTS=option·assume=indexOf,get,mergeIntoNode DOPTS=option·note=none
 //
 // ---- hash array node (branch): 32 slots indexed by the hash fragment
-//@ include internal/verifspec/hamtnode.contracts HEAD=func·(*mapHashArrayNode). OPTS=option·timeout=120 DOPTS=option·tier=thorough
+//@ include internal/verifspec/hamtnode.contracts HEAD=func·(*mapHashArrayNode). OPTS=option·timeout=120·steps=6000000 DOPTS=option·tier=thorough
 //@ func (*mapHashArrayNode).set(n, key, value, shift, keyHash, h, mutable, resized) result
 //@   ghost before "newNode = node.set(" :: verifspec.Reveal(Rec_childOK(node, idx, shift, h))
 //@   ghost before "return other" :: verifspec.Reveal(Rec_childOK(newNode, idx, shift, h))
